@@ -221,4 +221,12 @@ def readCoeffLenV (ndmin2 inctime : Bool) (rows npulses i : Nat) : Option Nat :=
   | [r, c] => if i < (if inctime then c - 1 else c) then some r else none
   | _ => none
 
+/-- what `np.savetxt(..., header=h)` puts in front of the data: nothing at all when `h` is the empty string
+(`always = false`, the call as found); the repaired `save_coeff` (fixes/C14-5.patch: the comment prefix is part of the
+header) always writes the line.  `none`: the file starts with its first data row. -/
+def headerLineV {α : Type} (always : Bool) (hash space nl semi : α) (inctime : Bool) (labels : List (List α)) :
+    Option (List α) :=
+  if !always && (if inctime then semi :: joinSep semi labels else joinSep semi labels).isEmpty then none
+  else some (headerLine hash space nl semi inctime labels)
+
 end QipVerif.Grid
